@@ -19,6 +19,7 @@ import FlatccModel.Alloc
 import FlatccModel.StructGraph
 import FlatccModel.Clone
 import FlatccModel.Props.C12_Iov
+import FlatccModel.Sortable
 /-! `fmodel`: executes the model's definitions on protocol lines (stdin → stdout, one result line per op line). -/
 open Flatcc Flatcc.Util
 
@@ -571,6 +572,20 @@ def sgraphOp (args : List String) : String :=
     | d :: _ => s!"fail first={match d with | .circular => "circular" | .deep => "deep" | .empty => "empty"} diags={st.diags.length}"
   | _ => "bad-op"
 
+/-- sortable <types in declaration order ';' separated: `d` or `-` (has a non-deprecated sorted member), ':', refs ',' separated> -/
+def sortableOp (args : List String) : String :=
+  open Flatcc.Sortable in
+  match args with
+  | [gs] =>
+    let ts : List Ty := (gs.splitOn ";").map (fun s =>
+      match s.splitOn ":" with
+      | [d, rs] => { direct := d == "d", refs := (rs.splitOn ",").filterMap (fun r => if r == "" then none else some r.toNat!) }
+      | _ => { direct := false, refs := [] })
+    match markSortable ts with
+    | some m => "ok " ++ String.ofList (m.map (fun b => if b then '1' else '0'))
+    | none => "fuel"
+  | _ => "bad-op"
+
 /-- b64 enc|dec|decl|size|parse|chunks|rooms: see OUT/h_b64.c (pbase64.h, FlatccModel/Base64.lean) -/
 def b64Op (args : List String) : String :=
   open Flatcc.Base64 in
@@ -686,6 +701,7 @@ def step (line : String) : String :=
   | "clone" :: args => cloneOp args
   | "iov" :: args => iovOp args
   | "sgraph" :: args => sgraphOp args
+  | "sortable" :: args => sortableOp args
   | "refmap" :: args => refmapOp args
   | "ident" :: args => identOp args
   | "emit" :: args => emitOp args
